@@ -222,5 +222,25 @@ def replay(ctx, o):
         if r['status'] != 'ok': return True, 'native Rejection_Sampling ended: ' + r['status']
         return not (-1.0 <= r['ret'] <= 2.0), 'native Rejection_Sampling on [-1,2] returned %r' % r['ret']
     if key.startswith('C18/poisson'):
-        r = nat.call(so, 'verif_sample', [('i32', 3), 3.5, 0.0, 0.0]); return not (r['status'] == 'ok' and r['ret'] >= 0 and r['ret'] == int(r['ret'])), 'native Sample_Poisson(3.5) = %s' % r.get('ret', r['status'])
+        # exact reference: the harness seeds std::mt19937 with 20240607; the same generator and libstdc++'s generate_canonical<double,53> (two 32-bit draws) are re-implemented here,
+        # and Knuth's rule is applied to that stream: the count is (number of draws until the running product drops below exp(-lambda)) - 1
+        def mt19937(seed):
+            mt = [0] * 624; mt[0] = seed & 0xffffffff
+            for i in range(1, 624): mt[i] = (1812433253 * (mt[i - 1] ^ (mt[i - 1] >> 30)) + i) & 0xffffffff
+            idx = 624
+            while True:
+                if idx >= 624:
+                    for k in range(624):
+                        y = (mt[k] & 0x80000000) | (mt[(k + 1) % 624] & 0x7fffffff); mt[k] = mt[(k + 397) % 624] ^ (y >> 1) ^ (0x9908b0df if y & 1 else 0)
+                    idx = 0
+                y = mt[idx]; idx += 1; y ^= y >> 11; y ^= (y << 7) & 0x9d2c5680; y ^= (y << 15) & 0xefc60000; y ^= y >> 18; yield y & 0xffffffff
+        bad = []
+        for lam in (0.3, 1.0, 3.5, 7.25, 20.0):
+            g = mt19937(20240607); prod = 1.0; k = 0; lim = math.exp(-lam)
+            while True:
+                x1 = next(g); x2 = next(g); u = (float(x1) + float(x2) * 4294967296.0) / 18446744073709551616.0; u = min(u, 1.0 - 2.0 ** -53); k += 1; prod *= u
+                if prod <= lim * (1 + 1e-12): break
+            r = nat.call(so, 'verif_sample', [('i32', 3), lam, 0.0, 0.0])
+            if r['status'] != 'ok' or r['ret'] != float(k - 1): bad.append((lam, r.get('ret', r['status']), k - 1))
+        return bool(bad), 'native Sample_Poisson with the generator seeded as in the harness against the textbook rule on the same stream (lambda, native, expected): %s' % (bad or 'all of 0.3, 1, 3.5, 7.25, 20 agree')
     return False, 'no replay rule for ' + key
